@@ -8,3 +8,4 @@ mkdir -p ../bin ../evidence ../replays
 go build -o ../bin/slugcheck .
 # the mutation-sweep instrument (tools/mutsweep.py); not needed by any check
 (cd ../tools/mutgen && GOFLAGS=-mod=mod go build -o ../../bin/mutgen . 2>/dev/null) || true
+(go build -o ../bin/mutgen2 ./cmd/mutgen2 2>/dev/null) || true
